@@ -262,6 +262,10 @@ defrecord('RxGen', Sigma=SET(ATOM), id_generator=REC('IdGen'))
 defrecord('Alternative', symbols=LIST(ATOM))
 defrecord('Rule', variable=ATOM, alternative=REC('Alternative'))
 defrecord('CFG', V=SET(ATOM), Sigma=SET(ATOM), R=LIST(REC('Rule')), S=ATOM, epsilon=ATOM)
+# the generic automaton description produced by the tokeniser (automaton.py) and the builder objects that turn it into a DFA / NFA / ... (C17);
+# regular expressions for labels are opaque names (their matching relation is the uninterpreted predicate re_fullmatch)
+defrecord('Automaton', states=SET(ATOM), transitions=LIST(KEY3), initial_states=SET(ATOM), final_states=SET(ATOM), items=MAP(ATOM, LIST(ATOM)))
+defrecord('Builder', A=REC('Automaton'), state_regex=ATOM, transition_regex=ATOM, symbol_regex=ATOM)
 
 
 def parse_type(s):
